@@ -374,6 +374,10 @@ class CaseGen:
                       'rem=hello', 'nolabel', 'ofix=XOR B', 'bfix=DEFB 1', 'refs=32768', 'org', 'start', 'defb=1', 'keep=1,2')
                 if self.flags.ignoreua_i:
                     ch += ('ignoreua', 'ignoreua=32768', 'ignoreua:i', 'ignoreua:i=1,2')
+                # @bytes with exactly the bytes of the statement (skool2ctl sizes the last statement of the file by it); only where
+                # the unit is certain to be one statement (a value count different from the statement size is a user error)
+                if len(us) == 1 and (kind == 'C' or (kind == 'W' and x.size == 2) or (kind in 'BTS' and x.size <= 8)):
+                    ch += ('bytes=' + ','.join(('${:02X}' if x.addr % 2 else '{}').format(b) for b in mem[x.addr:x.addr + x.size]),) * 2
                 lines.append('@ {} {}'.format(A(x.addr), rng.choice(ch)))
         d = kind if (kind != natural or rng.random() < 0.5) else ' '
         spec = '{} {}'.format(d, A(start))
@@ -651,6 +655,98 @@ def roundtrip(tools, org, data, ctl_lines, s_opts, c_opts):
     if st != 'ok' or ctl3 != ctl2:
         return 'not-fixed', {'s1': s1, 'ctl2': ctl2, 'ctl3': ctl3}
     return 'ok', {'s1': s1, 'ctl2': ctl2, 'warn1': e1}
+
+
+# ---- directed deterministic round trips (rarely drawn shapes; every one must come back 'ok') -------------
+# (name, memory bytes at 32768, ctl lines without the terminal 'i' line)
+DIRECTED = [
+    ('bytes-on-last-instruction', [0x3E, 1, 0xC9], ['c 32768 Routine', '@ 32770 bytes=201']),
+    ('bytes-on-last-instruction-hex', [0xAF, 0xED, 0x4C], ['c 32768 Routine', '@ 32769 bytes=$ED,$4C', 'C 32769,2 negate']),
+    ('bytes-on-last-statement', [1, 2, 3, 4], ['b 32768 Data', '@ 32770 bytes=3,4', 'B 32768,2', 'B 32770,2,d2 tail']),
+    ('defs-char-size', [0] * 40 + [65] * 40 + [7] * 35, ['s 32768 Space', 'S 32768,c40', 'S 32808,40,c40:c', 'S 32848,35,c35:h filler']),
+    ('defs-bases', [0] * 5 + [255] * 6 + [34] * 7 + [1] * 3, ['s 32768 Space', 'S 32768,b5 five', 'S 32773,6,h6:b', 'S 32779,7,d7:c quotes', 'S 32786,3,3:m']),
+    ('defw-bases', [65, 0, 65, 65, 255, 255, 0, 0, 34, 0, 1, 2], ['w 32768 Words', 'W 32768,c4', 'W 32772,4,m2:b2 two', 'W 32776,4,c2:h2']),
+    ('defb-mixed', [65, 66, 34, 92, 0, 255, 1, 129, 193, 59, 44, 58], ['b 32768 Bytes', 'B 32768,12,1:c3:b1:h1:m1:d1:c1:c3 mixed']),
+    ('defm-mixed', [65, 66, 34, 92, 0, 255, 1, 129, 193, 59, 44, 58], ['t 32768 Text', 'T 32768,12,c4:b1:n1:m1:d1:c4', 'E 32768 The end.']),
+    ('index-negative-bases', [0xDD, 0x7E, 0xFB, 0xFD, 0x36, 0x80, 0x41, 0xDD, 0x86, 0xFF, 0xFD, 0x34, 0x81],
+     ['c 32768 Index', 'C 32768,h3 minus five', 'C 32771,hc4', 'C 32775,b3', 'C 32778,d3']),
+    ('bit-res-set-index', [0xFD, 0xCB, 0x85, 0xC6, 0xDD, 0xCB, 0x7F, 0x46, 0xFD, 0xCB, 0xFF, 0x9E, 0xDD, 0xCB, 0x80, 0xFE],
+     ['c 32768 Bits', 'C 32768,h4', 'C 32772,b4 test', 'C 32776,d4', 'C 32780,h4']),
+    ('rst-io-bases', [0xCF, 0xFF, 0xDB, 0xFE, 0xD3, 0x7F, 0xC7, 0xED, 0x56], ['c 32768 Ports', 'C 32768,h2', 'C 32770,b2 read', 'C 32772,h2 write', 'C 32774,d1', 'C 32775,b2']),
+    ('jumps-bases', [0x18, 0xFE, 0x10, 0x00, 0x20, 0x7F, 0xC3, 0x00, 0x80, 0xCD, 0xFF, 0xFF, 0xE9], ['c 32768 Jumps', 'C 32768,h2', 'C 32770,b2', 'C 32772,d2', 'C 32774,h3', 'C 32777,b3']),
+    ('char-operands', [0x3E, 0x41, 0x06, 0xC1, 0x36, 0x22, 0xFE, 0x5C, 0x0E, 0x3B, 0xDD, 0x36, 0x41, 0x42, 0x08, 0x16, 0x20],
+     ['c 32768 Chars', 'C 32768,c8 letters', 'C 32776,c2 semicolon', 'C 32778,cc4 both', 'C 32782,1', 'C 32783,c2 space']),
+    ('char-then-number', [0xDD, 0x36, 0x41, 0x42, 0xFD, 0x36, 0x05, 0x41, 0x21, 0x41, 0x00], ['c 32768 Mixed', 'C 32768,ch4', 'C 32772,hc4', 'C 32776,c3']),
+    ('m-repeat', [1, 2, 3, 4, 0xAF, 0xC9], ['b 32768 Data', 'M 32768,4,1 same on every line', 'B 32768,2,1', 'W 32770,2', 'c 32772 Code']),
+    ('m-over-types', [1, 2, 3, 0, 65, 66, 0xAF], ['b 32768 Data', 'M 32768,6 three kinds', 'B 32768,2', 'W 32770,2', 'T 32772,2', 'C 32774,1 tail']),
+    ('brace-comments', [0, 0, 0, 0, 0, 0], ['b 32768 Data', 'B 32768,2,1 {x} starts and ends with {y}', 'B 32770,1 {z}', 'B 32771,2,1 f{1} {{a}}', 'B 32773,1 }{ no']),
+    ('blank-groups', [0] * 9, ['b 32768 Data', 'B 32768,3,1 .', 'B 32771,2,1 ...', 'B 32773,1 ..', 'B 32774,3,1']),
+    ('paragraphs', [0xC9, 0xC9], ['c 32768 Routine', 'D 32768 First paragraph.', 'D 32768 Second paragraph with e.g. dots...', 'R 32768 A value', 'R 32768 O:HL result',
+                                  'R 32768 (DE) pointer', 'N 32768 Start comment.', 'N 32768 More.', 'N 32769 Mid-block.', 'E 32768 End one.', 'E 32768 End two.']),
+    ('no-title-sections', [0xC9, 1], ['c 32768', 'D 32768 Description only.', 'b 32769', 'R 32769 A only a register', 'u 32770']),
+    ('ignoreua-all', [0xC9, 0xC9], ['@ 32768 ignoreua:t', 'c 32768 Routine at 32768', '@ 32768 ignoreua:d=32768', 'D 32768 See 32768.', '@ 32768 ignoreua:r', 'R 32768 A 32768',
+                                    '@ 32768 ignoreua:m=1,2', 'N 32768 Start 32768.', '@ 32768 ignoreua:i', 'C 32768,1 at 32768', '@ 32769 ignoreua:m', 'N 32769 Mid 32768.',
+                                    '@ 32769 ignoreua=32768', 'C 32769,1 again', '@ 32768 ignoreua:e=$8000', 'E 32768 End 32768.']),
+    ('header-footer', [0xC9], ['> 32768 ; Header one', '> 32768 ;', '> 32768 ;  indented', '> 32768', '> 32768 @start', '> 32768 ; Header two', '@ 32768 org', '@ 32768 rom',
+                               'c 32768 Routine', '> 32768,1 ; Footer one', '> 32768,1', '> 32768,1 ; Footer two', '> 32768,1 @end']),
+    ('entry-types', [1, 2, 3, 4, 5, 6, 0, 0, 65, 66, 7, 8, 9, 10], ['g 32768 Game', 'B 32768,2,1', 'u 32770 Unused', '  32770,2', 's 32772 Space', 'S 32772,2', '  32774,2,1',
+                                                                  't 32776 Text', '  32776,2', 'B 32778,1', 'w 32779 Words', '  32779,2 one', 'B 32781,1']),
+    ('instruction-asm', [0x3E, 1, 0xC9, 0], ['c 32768 Routine', '@ 32768 label=START', '@ 32768 isub=LD A,2 ; two', '@ 32768 keep', '@ 32770 nowarn', '@ 32770 ssub=RET Z',
+                                            '@ 32770 rem=Returns.', '@ 32771 label=*', '@ 32771 refs=32768', 'C 32768,2 load', 'C 32770,1', 'C 32771,1 pad']),
+    ('semicolon-quotes', [0x3E, 0x3B, 59, 34, 59, 58, 32, 0x3E, 0x22], ['c 32768 Routine', 'C 32768,c2 a ; in the operand', 'T 32770,5 text "with" ; and :', 'C 32775,c2 quote']),
+]
+DIRECTED_OPTS = (([], []), (['-H', '-l'], ['-k']), (['-H'], ['-h']), (['-l', '-w', '60'], ['-k', '-l']))
+KEEP_ONLY = [
+    ('keep-colon-lines', [0, 0, 0], ['b 32768 Data', 'B 32768,3,1 first', ': still first', '. second', '. third', ': still third']),
+    ('keep-dot-sections', [0xC9], ['c 32768', '. Title over', '. two lines', 'D 32768', '. Para one', '. .', '. Para two', 'R 32768', '. A value', '.   continued', 'N 32768', '. Start', 'E 32768', '. End']),
+]
+
+
+def operand_sweep(tools, pair):
+    """One instruction per decoder slot that takes a numeric operand (templates with '{}' in the real tables; the x6/xE columns of
+    DDCB/FDCB), operand bytes = pair, each followed by one NOP."""
+    from skoolkit import disassembler, snaskool
+    cfg = snaskool.DisassemblerConfig(False, False, 8, 65, 1, 0, snaskool.Instruction, '', 0)
+    d = disassembler.Disassembler([0] * 65536, cfg)
+    a, b = pair
+    out = []
+    for x in sorted(d.ops):
+        if '{' in d.ops[x][1]:
+            out += [x, a, b, 0]
+    for x in sorted(d.after_ED):
+        if '{' in d.after_ED[x][1]:
+            out += [0xED, x, a, b, 0]
+    for p in (0xDD, 0xFD):
+        for x in sorted(d.after_DD):
+            if '{' in d.after_DD[x][1]:
+                out += [p, x, a, b, 0]
+        for x in range(6, 256, 8):
+            out += [p, 0xCB, a, x, 0]
+    return out
+
+
+def directed_cases(tools):
+    """(name, org, data, ctl lines, sna2skool options, skool2ctl options)"""
+    org = 32768
+    for name, data, lines in DIRECTED:
+        for s_opts, c_opts in DIRECTED_OPTS:
+            yield name, org, data, lines + ['i {}'.format(org + len(data))], s_opts, c_opts
+    for name, data, lines in KEEP_ONLY:
+        for s_opts in ([], ['-H', '-l', '-w', '60']):
+            yield name, org, data, lines + ['i {}'.format(org + len(data))], s_opts, ['-k']
+    k = 0
+    for base in ('b', 'c', 'd', 'h', 'n', 'hb', 'dc', 'cn', 'bd'):
+        for s_opts, c_opts in ((['-l'], []), (['-H'], ['-h'])):
+            pair = ((0x41, 0x5C), (0x7F, 0x80), (0x81, 0xFF))[k % 3] if 'c' not in base else ((0x41, 0x5C), (0x3B, 0xC1))[k % 2]
+            k += 1
+            try:
+                data = operand_sweep(tools, pair)
+            except Exception:       # the decoder tables are not where they used to be: no sweep rather than a harness failure
+                data = []
+            if not data:
+                continue
+            lines = ['c {} Sweep'.format(org), 'C {},{}{}'.format(org, base, len(data)), 'i {}'.format(org + len(data))]
+            yield 'operand-sweep:{}:{:02X}{:02X}'.format(base, *pair), org, data, lines, s_opts, c_opts
 
 
 # ---- fixed witnesses of the defects found while building this check -------------------------
